@@ -45,6 +45,8 @@ def unwrap : List Val → Res
 structure Trigger where
   tid   : Nat
   event : EventId
+  /-- the activation trigger the engine queues for itself in `start()` (as opposed to an event somebody sent) -/
+  internal : Bool := false
 deriving Repr, DecidableEq
 
 /-- what a callback can observe -/
